@@ -1,6 +1,6 @@
 /-
-C13 driver: line protocol of harness/c13.c.  Every op carries the word size W (B_PER_W of the
-build the line is meant for) as its first argument; octet strings are little-endian images.
+C13 driver: line protocol of harness/c13.c.  Every op carries the word size W (32 or 64: the B_PER_W
+the model is instantiated with; the harness accepts both on any build, all data is octet-level) as its first argument; octet strings are little-endian images.
   stdm W len num                       -> code m
   valm W len m0                        -> code
   genm0 W len tape                     -> code m0
